@@ -34,6 +34,8 @@ def main():
     kf = json.load(open(os.path.join(VERIF, "known_findings.json")))["findings"]
     dirs = {"D4-D5": "D4_D5"}
     for f in kf:
+        if f.get("status") != "fixed":
+            continue    # an open finding has no fix to take out; it shows as a KNOWN-FINDING line on the unchanged tree
         name = "revert-fix-" + f["id"]
         if sel and not any(x in name for x in sel):
             continue
